@@ -1,7 +1,8 @@
 ---- MODULE MCQ_dechunk ----
 EXTENDS MCDechunk
 \* payload bytes: a, CR, LF, '0' (data that looks like framing) ; one 10-byte chunk for the hex letters
-DatasQ == {<<97>>, <<10>>, <<48>>, <<13, 10>>, <<97, 98, 99>>}
+DatasQ == {<<97>>, <<48>>, <<13, 10>>, <<97, 98, 99>>}
 DatasOne == {<<97>>, <<97, 98, 99>>, <<120, 120, 120, 120, 120, 120, 120, 120, 120, 120>>}
+DatasTwo == {<<97>>, <<13, 10, 48>>}
 DatasT == SeqsLen({97, 13, 10, 48}, 1) \cup SeqsLen({97, 13, 10, 48}, 2) \cup {<<97, 98, 99>>, <<120, 120, 120, 120, 120, 120, 120, 120, 120, 120, 120>>}
 ====
